@@ -62,4 +62,13 @@ varies between runs or machines — clock, environment variables, processor coun
 theorem no_environment_inputs :
     (Spg.Generated.Facts.sensitiveCalls.all fun c => c.2.2.1 == "crypto/rand.Read") = true := by decide
 
+/-- **The list's yes/no decisions are exact.** "Every word changes under title-casing" is a
+statement about integers (the count of title-fixed words is 0) and the model decides it on
+integers (`allCap`). In the source no comparison in `word_gen.go` has floating-point operands: a
+ratio compared with 1.0 in float32 is right for every list up to 2^24 words and wrong beyond —
+out of reach of any execution the harness can afford, which is why this is a theorem about the
+regenerated facts. (Seeded change C08o compared `capitalizeRatio() >= 1.0` in float32.) -/
+theorem list_decisions_exact :
+    (Spg.Generated.Facts.floatCompares.filter fun c => c.1 == "word_gen.go") = [] := by decide
+
 end Spg.C08
